@@ -13,7 +13,7 @@ import cbor2 as cbor
 
 from typing import Any, Type, ClassVar, Union, get_origin, get_args
 from types import UnionType
-from collections.abc import Callable
+from collections.abc import Callable, Mapping
 from dataclasses import (dataclass, astuple, asdict, fields, field, InitVar,
                          is_dataclass)
 
